@@ -718,6 +718,9 @@ def check_export_files(model, rep, R='C18.export'):
 
 
 def check(model, rep):
+    # hidden state Python keeps outside the objects (not modelled by the evaluator): reported before anything else is evaluated
+    from checks.solver_common import package_lints as _package_lints
+    _package_lints(model, rep, 'C18.hidden-state', ('/powertrain.py', '/utils/export.py'))
     rep.explain('C18: Powertrain.snapshot is unrolled statically (constant zip lists, guarded work lists) into its column '
                 'writes; each write must be control-dependent on the membership test of its own variable only, use that variable\'s '
                 'unit parameter for both conversion and label, take its samples from time_variables[same variable], and '
